@@ -93,7 +93,7 @@ func genBlob(t *rapid.T, label string, damaged bool) []byte {
 
 func genFrame(t *rapid.T, label string, real bool) ([]byte, string) {
 	good := []string{"addhard-new", "addhard-legacy", "listslots", "readslot", "attestslot", "wait", "list", "listv1", "sign", "add", "addconstrained", "remove", "removeall", "lock", "unlock", "std-truncated", "unknown", "unknown", "len2", "extension"}
-	bad := []string{"addhard-junk", "len0", "len1", "len1", "addhard-new", "addhard-legacy"}
+	bad := []string{"addhard-junk", "len0", "len1", "len1", "addhard-new", "addhard-legacy", "add-short-constraint", "add-short-constraint"}
 	kinds := good
 	isBad := rapid.IntRange(0, 9).Draw(t, label+"Bad") == 0
 	if isBad {
@@ -137,6 +137,14 @@ func genFrame(t *rapid.T, label string, real bool) ([]byte, string) {
 		return append(f, fl[:]...), k
 	case "add", "addconstrained":
 		return buildAdd(k == "addconstrained", rapid.Uint32Range(0, 100000).Draw(t, label+"L")), k
+	case "add-short-constraint":
+		// a constrained add whose lifetime constraint is cut short (1..4 bytes missing)
+		f := buildAdd(true, rapid.Uint32Range(0, 100000).Draw(t, label+"L"))
+		cut := rapid.IntRange(1, 4).Draw(t, label+"Cut")
+		if len(f) > cut+2 {
+			f = f[:len(f)-cut]
+		}
+		return f, k
 	case "remove":
 		return append([]byte{18}, sshString(vh.SSHPub(key).Marshal())...), k
 	case "removeall":
@@ -203,6 +211,9 @@ func genStream(real bool) func(t *rapid.T) StreamCase {
 		n := rapid.IntRange(0, 8).Draw(t, "nframes")
 		for i := 0; i < n; i++ {
 			f, k := genFrame(t, fmt.Sprintf("f%d", i), real)
+			if real && len(f) >= 2 && f[0] == 35 && f[1] < 40 {
+				f[1] += 40 // a real wait on a code below 40 blocks until a matching request arrives (C20 owns that)
+			}
 			c.Frames = append(c.Frames, f)
 			c.Kinds = append(c.Kinds, k)
 		}
@@ -270,7 +281,9 @@ func parseNewAddHard(req []byte) (blob []byte, comment string, ok bool) {
 
 // classify decides whether a frame must be answered exactly once ("must") or may also end the
 // connection with an error ("may").
-func classify(req []byte, fail bool) string {
+var wellFormedStd = map[string]bool{"list": true, "listv1": true, "sign": true, "add": true, "addconstrained": true, "remove": true, "removeall": true, "lock": true, "unlock": true}
+
+func classify(req []byte, fail bool, kind string) string {
 	if len(req) == 0 {
 		return "may"
 	}
@@ -293,7 +306,12 @@ func classify(req []byte, fail bool) string {
 		}
 		return "may"
 	case 1, 11, 13, 17, 18, 19, 22, 23, 25:
-		return "must"
+		// requests built by the library client (or consisting of the code alone where that is the whole
+		// request) are well-formed; other bodies are answered with a failure or end the connection
+		if wellFormedStd[kind] || (len(req) == 1 && (req[0] == 1 || req[0] == 11 || req[0] == 19)) {
+			return "must"
+		}
+		return "may"
 	}
 	if fail {
 		return "may" // a failing Forward ends the connection
@@ -304,8 +322,8 @@ func classify(req []byte, fail bool) string {
 func exec(c StreamCase) (vh.Outcome, error) {
 	out := vh.Outcome{Classes: []string{"tail=" + c.Tail, fmt.Sprintf("real=%v", c.Real)}}
 	wellFormed, malformed := 0, 0
-	for _, f := range c.Frames {
-		if classify(f, c.Fail != "") == "must" {
+	for i, f := range c.Frames {
+		if classify(f, c.Fail != "", kindAt(c, i)) == "must" {
 			wellFormed++
 		} else {
 			malformed++
@@ -371,7 +389,7 @@ func exec(c StreamCase) (vh.Outcome, error) {
 	ri := 0
 	ended := false
 	for i, f := range c.Frames {
-		cls := classify(f, c.Fail != "")
+		cls := classify(f, c.Fail != "", kindAt(c, i))
 		if ri >= len(replies) {
 			if cls == "must" {
 				return out, vh.Errf("frame %d (%s, %d bytes, code %v) got no response; %d responses for %d frames; ServeAgent returned %v", i, c.Kinds[i], len(f), codeOf(f), len(replies), len(c.Frames), ret)
@@ -489,6 +507,13 @@ func exec(c StreamCase) (vh.Outcome, error) {
 	return out, nil
 }
 
+func kindAt(c StreamCase, i int) string {
+	if i < len(c.Kinds) {
+		return c.Kinds[i]
+	}
+	return ""
+}
+
 func codeOf(b []byte) any {
 	if len(b) == 0 {
 		return "none"
@@ -496,7 +521,7 @@ func codeOf(b []byte) any {
 	return b[0]
 }
 
-const rule = "byte streams for ServeAgent over an in-memory connection: 0..8 frames from a grammar (add-hardware-certificate in the new and the legacy encoding with real, bit-flipped and truncated key / certificate blobs, junk; list slots; read / attest slot with slot names; wait with any code; the nine standard requests well-formed (built by the library client) and truncated; unknown codes and extension with random bodies; frames of length 0, 1 and 2 with any code), followed by a clean end, a truncated length prefix, a truncated body or a declared length in {16 MiB+1, 2^30, 2^31, 2^32-1}; the served agent is a total recording agent that succeeds or fails every call with a text. Oracle: the harness parses the stream itself; a well-formed frame gets exactly one response of the right kind (SUCCESS / error text, marshalled slot replies, standard reply code, byte-identical forwarded reply) with the arguments recorded by the served agent; a malformed frame is answered or ends the connection with a non-nil error; responses in request order; nothing after the end; clean end => nil; truncated length prefix or truncated body (including a stream that ends right after a length prefix) => error; oversize => error and < 8 MiB allocated. Non-trivial: >= 2 frames mixing well-formed and malformed, or a non-clean tail after >= 1 frame."
+const rule = "byte streams for ServeAgent over an in-memory connection: 0..8 frames from a grammar (add-hardware-certificate in the new and the legacy encoding with real, bit-flipped and truncated key / certificate blobs, junk; list slots; read / attest slot with slot names; wait with any code; the nine standard requests well-formed (built by the library client), truncated, and with a lifetime constraint cut short; unknown codes and extension with random bodies; frames of length 0, 1 and 2 with any code), followed by a clean end, a truncated length prefix, a truncated body or a declared length in {16 MiB+1, 2^30, 2^31, 2^32-1}; the served agent is a total recording agent that succeeds or fails every call with a text. Oracle: the harness parses the stream itself; a well-formed frame gets exactly one response of the right kind (SUCCESS / error text, marshalled slot replies, standard reply code, byte-identical forwarded reply) with the arguments recorded by the served agent; a malformed frame is answered or ends the connection with a non-nil error; responses in request order; nothing after the end; clean end => nil; truncated length prefix or truncated body (including a stream that ends right after a length prefix) => error; oversize => error and < 8 MiB allocated. Non-trivial: >= 2 frames mixing well-formed and malformed, or a non-clean tail after >= 1 frame."
 
 func TestC12Stream(t *testing.T) {
 	vh.Run(t, vh.Spec[StreamCase]{Property: "C12", Name: "TestC12Stream", Rule: rule, Gen: genStream(false), Exec: exec})
